@@ -12,8 +12,8 @@ one() {
   (cd $d && git init -q . && git apply /verif/seeded/$seed/patch.diff) || { echo "$seed APPLY-FAILED" >> $out/matrix.txt; rm -rf $d; return; }
   line="$seed"
   for p in $ids; do
-    o=$(cd /verif && VERIF_REPO=$d VERIF_OUT_DIR=$d/_out timeout 1500 ./check $p 2>&1 | grep -v '^WARNING'); rc=$?
-    rc=$(cd /verif && echo "$o" | grep -q '^VIOLATION' && echo 1 || (echo "$o" | grep -q 'CHECKER-ERROR\|VACUITY' && echo 3 || (echo "$o" | grep -q UNDECIDED && echo 2 || echo 0)))
+    o=$(cd ${VERIF_HOME:-/verif} && VERIF_REPO=$d VERIF_OUT_DIR=$d/_out timeout 1500 ./check $p 2>&1 | grep -v '^WARNING'); rc=$?
+    rc=$(echo "$o" | grep -q '^VIOLATION' && echo 1 || (echo "$o" | grep -q 'CHECKER-ERROR\|VACUITY' && echo 3 || (echo "$o" | grep -q UNDECIDED && echo 2 || echo 0)))
     nf=$(echo "$o" | grep '^VIOLATION' | grep -c 'no-failing-input-found')
     ce=$(echo "$o" | grep -c 'CHECKER-ERROR')
     line="$line $p=$rc$([ "$nf" -gt 0 ] && echo n)$([ "$rc" = 1 ] && [ "$ce" -gt 0 ] && echo b)"
